@@ -370,11 +370,9 @@ def extractVariable (vars : Option (List (String × PV))) (ty : Ty) (x : String)
 
 /-- `_extract_input_object` (fix A5: a field the type does not define is refused) -/
 def extractInputObject (rec : Ty → Lit → R) (fields : List InField) (lkvs : List (String × Lit)) : R :=
-  if allKnown fields lkvs then
-    match fieldLoop (fun k => lookupLast k lkvs) rec fields with
-    | .error e => .error e
-    | .ok r => .ok (.dict r)
-  else .error .coercion
+  match fieldLoop (fun k => lookupLast k lkvs) rec fields with
+  | .error e => .error e
+  | .ok r => if allKnown fields lkvs then .ok (.dict r) else .error .coercion
 
 /-- body of `value_from_ast` after the variable and non-null tests, on the stripped type -/
 def vfaCore (reg : Reg) (rec : Ty → Lit → R) (t : Ty) (l : Lit) : R :=
